@@ -150,6 +150,8 @@ static void stage_corpus(Run &R) {
     for (const Bytes &l : corpus_lines(R.a.datadir)) { if ((int) (i++ % R.a.nworkers) != R.a.worker) continue; auto f = check_addr(R, l, dm); if (f && !R.fail(*f)) return; R.count("corpus-lines"); }
     std::ifstream f(R.a.datadir + "/tld-domains.txt"); std::string line; uint64_t n = 0;
     while (std::getline(f, line)) { if (line.empty()) continue; if ((int) (n++ % R.a.nworkers) != R.a.worker) continue; auto fl = check_addr(R, "u@" + line, 0x7ff); if (fl && !R.fail(*fl)) return; }
+    for (const Bytes &d : gen::mapped_names()) for (int mask : {0, 0x7ff, dm}) { if ((int) (n++ % R.a.nworkers) != R.a.worker) continue; auto fl = check_addr(R, "u@" + d, mask); if (fl && !R.fail(*fl)) return; }
+    for (const Bytes &d : gen::idn_mapped_shapes("iana", "org")) { if ((int) (n++ % R.a.nworkers) != R.a.worker) continue; auto fl = check_addr(R, "u@" + d, dm); if (fl && !R.fail(*fl)) return; }
     for (size_t r = 0; r < T.puny.rows.size(); r++) { if ((int) (r % R.a.nworkers) != R.a.worker) continue; auto fl = check_addr(R, "u@x." + T.puny.rows[r].domain, 0); if (fl && !R.fail(*fl)) return; }
 }
 static void stage_random(Run &R) {
